@@ -307,6 +307,7 @@ func checkC06(c *Ctx, r *Report) {
 	const tStore = pkg + ".store"
 	r.Explain = "Recovery discipline of the disk blob store: (R1) every fatal return of the reboot code stems from an I/O error, never from the content of a sidecar that is written non-atomically (such content fails open: the blob is dropped and its directory removed so the key can be created again); (R2) metadata is written to a temporary file and renamed after the write succeeded; (R3) a blob is marked complete in memory only after the directory rename succeeded (shared with C07.R6); (R4) Create registers the blob only after its file exists and releases the reservation on every error exit (shared with C07.R2); (R5) sidecars are removed individually only by the tabled operations — the size sidecar of an incomplete blob is never removed on its own."
 	r.NotDecided = "Equality of the restored state with the pre-crash state for every crash prefix; sharded/unsharded path arithmetic; power-loss durability."
+	defer rulesFreshStoreDecision(c, r)
 	r1 := r.Rule("R1", "E-GUARD(classification)", "every error return of the reboot functions carries an error produced by an os/io call (or by a reboot callee), not by parsing sidecar content; an unrestorable incomplete blob is removed from disk before it is skipped", 6)
 	parseCalls := []string{"strconv.Atoi", "strconv.ParseInt", "strconv.ParseUint", "strconv.ParseBool", "encoding/json.Unmarshal"}
 	for _, n := range []string{pkg + ".rebootPersistedStore", pkg + ".rebootBlob", pkg + ".rebootIncompleteBlobSize"} {
@@ -350,6 +351,29 @@ func checkC06(c *Ctx, r *Report) {
 			}
 		}
 		r.Check(ok, r1, rb, "unrestorable incomplete blob removed", nil, "directory removed on the !ok side", "an incomplete blob that cannot be restored is skipped but left on disk: its key can never be created again (O_EXCL fails)")
+		// every path on which rebootBlob reports "skip this blob" (ok=false, err=nil)
+		// removed the blob's directory successfully
+		n, bad := 0, 0
+		var where ssa.Instruction
+		forEachPath(rb, 5000, func(p Path) {
+			ret := p.ret()
+			if ret == nil || classifyReturn(ret) == RetFailure || len(ret.Results) != 3 || !isBoolConst(resolveOnPath(unspill(ret.Results[1]), p), false) {
+				return
+			}
+			n++
+			removed := false
+			for _, rm := range callsInNamed(rb, "os.RemoveAll") {
+				if mentionsCall(rm.Instr.Common().Args[0], "(*"+pkg+".pather).dirPath") && p.succeeded(rm.Instr) {
+					removed = true
+				}
+			}
+			if !removed {
+				bad++
+				where = ret
+			}
+		})
+		r.Check(n > 0 && bad == 0, r1, rb, "skipped blob leaves nothing on disk", where, fmt.Sprintf("%d skip path(s), all after RemoveAll(dirPath) succeeded", n),
+			fmt.Sprintf("%d of %d paths skip a blob found on disk without removing its directory: the remains (e.g. sidecars left by a crash inside Delete) stay, and completing the same key again fails on the directory rename", bad, n))
 	}
 	r2 := r.Rule("R2", "E-ORDER/ok", "disk.SetMetadata renames the temporary file into place only in the success region of the write to it", 1)
 	if sm := r.MustFunc(r2, "(*"+tStore+").SetMetadata"); sm != nil {
